@@ -38,11 +38,110 @@ fn metric(i: usize, len: usize) -> String {
     }
 }
 
+/// C12 / C06 under contention: while another thread sits inside the sink's critical section (an oversized write blocked on a
+/// full datagram queue), a flush must wait for the lock - it may not return Ok with an acknowledged metric still buffered.
+pub fn c12_flush_contended(_sc: &Value) -> Value {
+    use cadence::BufferedUnixMetricSink;
+    let mut viol: Vec<Value> = vec![];
+    let dir = temp_dir("c12-flush");
+    let path = dir.join("s.sock");
+    let server = UnixDatagram::bind(&path).unwrap();
+    server.set_nonblocking(true).unwrap();
+    // fill the receiver's queue so that the next blocking send parks
+    let filler = UnixDatagram::unbound().unwrap();
+    filler.set_nonblocking(true).unwrap();
+    let mut filled = 0;
+    while filler.send_to(b"fill", &path).is_ok() && filled < 100000 {
+        filled += 1;
+    }
+    let sink = Arc::new(BufferedUnixMetricSink::with_capacity(&path, UnixDatagram::unbound().unwrap(), 64));
+    let acked = sink.emit("a:1|c").is_ok();
+    let s2 = sink.clone();
+    let big = format!("big.{}:1|c", "x".repeat(100));
+    let b = std::thread::spawn(move || {
+        let _ = s2.emit(&big);
+    });
+    std::thread::sleep(Duration::from_millis(400));
+    let b_blocked = !b.is_finished();
+    let s3 = sink.clone();
+    let flushed = Arc::new(std::sync::Mutex::new(None));
+    let f2 = flushed.clone();
+    let a = std::thread::spawn(move || {
+        let r = s3.flush();
+        *f2.lock().unwrap() = Some(r.is_ok());
+    });
+    std::thread::sleep(Duration::from_millis(500));
+    let early = *flushed.lock().unwrap();
+    // drain: everything parked can proceed now
+    let mut got: Vec<String> = vec![];
+    let mut buf = [0u8; 65536];
+    let t = std::time::Instant::now();
+    while t.elapsed() < Duration::from_millis(1500) {
+        match server.recv(&mut buf) {
+            Ok(k) => got.push(String::from_utf8_lossy(&buf[..k]).to_string()),
+            Err(_) => {
+                if b.is_finished() && a.is_finished() {
+                    break;
+                }
+                std::thread::sleep(Duration::from_millis(5));
+            }
+        }
+    }
+    let _ = b.join();
+    let _ = a.join();
+    while let Ok(k) = server.recv(&mut buf) {
+        got.push(String::from_utf8_lossy(&buf[..k]).to_string());
+    }
+    let delivered = got.iter().any(|d| d.contains("a:1|c\n"));
+    if acked && b_blocked && early == Some(true) && !delivered {
+        for prop in ["C12", "C06"] {
+            viol.push(json!({"prop": prop, "clause": "flush-under-contention", "detail":
+                "flush() returned Ok while another thread held the sink's lock (blocked in an oversized write) and the acknowledged metric \"a:1|c\" was still buffered: it never reached the socket".to_string()}));
+        }
+    }
+    let _ = std::fs::remove_dir_all(&dir);
+    json!({"violations": viol, "log": format!("filled {} b_blocked {} flush returned early {:?} delivered {}", filled, b_blocked, early, delivered)})
+}
+
+/// A buffered sink whose first flush fails (nobody listens at the path yet) must still deliver the accepted metric on the
+/// next flush, or when it is dropped.
+fn unix_buffered_retry(_sc: &Value) -> Value {
+    use cadence::BufferedUnixMetricSink;
+    let mut viol: Vec<Value> = vec![];
+    for how in ["flush", "drop"] {
+        let dir = temp_dir("unix-retry");
+        let path = dir.join("s.sock");
+        let sink = BufferedUnixMetricSink::with_capacity(&path, UnixDatagram::unbound().unwrap(), 64);
+        let r1 = sink.emit("a:1|c");
+        let f1 = sink.flush();
+        let server = UnixDatagram::bind(&path).unwrap();
+        server.set_read_timeout(Some(Duration::from_millis(300))).unwrap();
+        let f2 = if how == "flush" {
+            Some(sink.flush())
+        } else {
+            drop(sink);
+            None
+        };
+        let mut b = [0u8; 256];
+        let got = server.recv(&mut b).map(|k| String::from_utf8_lossy(&b[..k]).to_string());
+        if r1.is_ok() && f1.is_err() && got.as_deref().ok() != Some("a:1|c\n") {
+            for prop in ["C13", "C06"] {
+                viol.push(json!({"prop": prop, "clause": "remainder-sent-after-failed-flush", "detail": format!(
+                    "emit Ok, first flush failed ({:?}), listener bound, then {} (result {:?}): the listener received {:?} instead of the buffered metric",
+                    f1.as_ref().map_err(|e| e.kind()), how, f2.as_ref().map(|r| r.as_ref().map_err(|e| e.kind())), got.as_ref().map_err(|e| e.kind()))}));
+            }
+        }
+        let _ = std::fs::remove_dir_all(&dir);
+    }
+    json!({"violations": viol})
+}
+
 pub fn replay(sc: &Value) -> Value {
     match sc["sink"].as_str().unwrap_or("") {
         "unix" => unix_unbuffered(sc),
         "udp" => udp_unbuffered(sc),
         "stats-concurrent" => stats_concurrent(sc),
+        "unix-buffered-retry" => unix_buffered_retry(sc),
         other => json!({"error": format!("unknown sink scenario {}", other)}),
     }
 }
@@ -144,6 +243,32 @@ fn unix_unbuffered(sc: &Value) -> Value {
         add("C14", "bytes", format!("bytes_sent={} bytes_dropped={} but accepted datagrams total {} bytes and refused ones {} bytes", st.bytes_sent, st.bytes_dropped, okb, errb));
     }
     let _ = std::fs::remove_dir_all(&dir);
+    // the destination is the PATH given at construction, not the socket that happened to be bound to it then: after the
+    // path is re-bound by another socket, a later emit must reach the new one
+    {
+        let dir2 = temp_dir("unix-rebind");
+        let p2 = dir2.join("s.sock");
+        let s1 = UnixDatagram::bind(&p2).unwrap();
+        s1.set_read_timeout(Some(Duration::from_millis(300))).unwrap();
+        let sink2 = UnixMetricSink::from(&p2, UnixDatagram::unbound().unwrap());
+        let mut b = [0u8; 256];
+        let first = sink2.emit("a:1|c");
+        let got1 = s1.recv(&mut b).map(|k| b[..k].to_vec());
+        drop(s1);
+        let _ = std::fs::remove_file(&p2);
+        let s2 = UnixDatagram::bind(&p2).unwrap();
+        s2.set_read_timeout(Some(Duration::from_millis(300))).unwrap();
+        let second = sink2.emit("b:1|c");
+        let got2 = s2.recv(&mut b).map(|k| b[..k].to_vec());
+        if first.is_err() || got1.as_ref().ok().map(|v| v.as_slice()) != Some(&b"a:1|c"[..]) {
+            add("C13", "destination", format!("plain emit to a bound path: result {:?}, datagram {:?}", first.map_err(|e| e.kind()), got1.map_err(|e| e.kind())));
+        } else if second.is_err() || got2.as_ref().ok().map(|v| v.as_slice()) != Some(&b"b:1|c"[..]) {
+            add("C13", "destination", format!(
+                "after the path was re-bound by another socket the emit returned {:?} and the new socket received {:?} (the sink follows the old socket, not the path it was given)",
+                second.map_err(|e| e.kind()), got2.map(|v| String::from_utf8_lossy(&v).to_string()).map_err(|e| e.kind())));
+        }
+        let _ = std::fs::remove_dir_all(&dir2);
+    }
     json!({"violations": viol, "log": log})
 }
 
